@@ -106,6 +106,7 @@ def run_scenario(sc, schedule, post_cancels=()):
     env.last_time = None
     env.counter = None
     env.done_time = None
+    env.done_idx = None
 
     def loop():
         return __USIM_STATE__.loop
@@ -259,7 +260,8 @@ def run_scenario(sc, schedule, post_cancels=()):
         inner.do(holder())
         for i in range(sc['siblings']):
             inner.do(sibling(i))
-        await (time + sc['body'])
+        if sc['body']:
+            await (time + sc['body'])
         if sc['scope_end'] == 'raise':
             raise BodyError()
         env.marks.append('body')
@@ -269,7 +271,7 @@ def run_scenario(sc, schedule, post_cancels=()):
         async with Scope() as outer:
             try:
                 if sc['scope_end'] == 'until':
-                    async with until(time + sc['body']) as inner:
+                    async with until(time + max(sc['body'], 1)) as inner:
                         await inner_body(inner, outer)
                         await (time + 1000)
                 else:
@@ -339,6 +341,8 @@ def run_scenario(sc, schedule, post_cancels=()):
                 env.last_time = lp.time
                 emit('Tick')
             sample(lp.time)
+            if env.done_idx is None and bool(env.victim.done):
+                env.done_idx = idx
             for tok in sched.get(idx, ()):
                 env.victim.cancel(tok)
             if target is env.victim.__runner__:
@@ -359,12 +363,14 @@ def run_scenario(sc, schedule, post_cancels=()):
                 env.plog = []
             sample(loop().time)
 
-    counter = ActivationCounter(before, after)
+    counter = ActivationCounter(before, after, limit=3000)
     env.counter = counter
     with patched(Task, 'cancel', cancel), patched(Task, '__close__', close), \
             patched(_ScopeClass, '__child_finished__', child_finished), counter.installed():
         try:
             usim.run(main(), start=sc.get('start', 0))
+        except KeyboardInterrupt:
+            raise
         except BaseException as e:  # noqa: nothing may leave run()
             env.error = '%s: %r' % (type(e).__name__, e)
         if env.victim is not None and env.error is None:
@@ -422,7 +428,7 @@ def monitor(sc, schedule, env):
             bad.append('awaiter %d completed but the task has no outcome' % i)
         elif final[1] is not None:
             if obj is not final[1]:
-                bad.append('awaiter %d got %r, the stored exception is %r' % (i, obj, final[1]))
+                bad.append('awaiter %d got %r which is not the stored exception object %r' % (i, obj, final[1]))
         elif kind != 1 or obj is not final[0]:
             bad.append('awaiter %d got %r, the stored value is %r' % (i, obj, final[0]))
     expected_awaits = sum(times for _, times in sc['awaiters'])
@@ -512,12 +518,15 @@ def gen_scenario(ctx, rng, i):
     sc = dict(waits=waits, end=end, on_cancel=on_cancel, on_close=on_close,
               after=rng.choice([None, None, None, 1, 2]), volatile=rng.random() < 0.2,
               awaiters=awaiters, siblings=rng.randint(0, 2), scope_end=scope_end,
-              body=rng.choice([1, 2, 3, 5, 8]), flag_at=rng.choice([1, 2, 4]), queue_gap=rng.choice([1, 2, 3]),
+              body=rng.choice([0, 1, 2, 3, 5, 8] if scope_end != 'raise' else [0, 0, 1, 2, 3]), flag_at=rng.choice([1, 2, 4]), queue_gap=rng.choice([1, 2, 3]),
               lock_hold=rng.choice([1, 2, 4]), start=rng.choice([0, 0, 5]))
     return sc
 
 
 CORNER_SCENARIOS = [
+    # the scope body fails before the child's first activation: __close__ of a CREATED task
+    dict(waits=[('delay', 1)], end=('return', 1), on_cancel=[], on_close=('pass',), after=None, volatile=False,
+         awaiters=[(0, 1), (2, 1)], siblings=1, scope_end='raise', body=0, flag_at=1, queue_gap=1, lock_hold=1, start=0),
     dict(waits=[('delay', 2)], end=('return', 1), on_cancel=[], on_close=('pass',), after=None, volatile=False,
          awaiters=[(0, 1), (4, 2)], siblings=1, scope_end='normal', body=1, flag_at=1, queue_gap=1, lock_hold=1, start=0),
     dict(waits=[('instant',)], end=('raise', 3, False), on_cancel=[], on_close=('pass',), after=None, volatile=False,
@@ -577,9 +586,12 @@ def schedules_for(ctx, rng, sc, per_scenario, full):
     ks = list(range(1, n))
     if not full and len(ks) > per_scenario - 6:
         must = [1, 2]
-        rest = [k for k in ks if k not in must]
-        rng.shuffle(rest)
-        ks = sorted(must + rest[:max(0, per_scenario - 8)])
+        last = n if dry.done_idx is None else dry.done_idx + 1
+        early = [k for k in ks if k not in must and k <= last]
+        late = [k for k in ks if k not in must and k > last]
+        rng.shuffle(early)
+        rng.shuffle(late)
+        ks = sorted(must + early[:max(0, per_scenario - 10)] + late[:2])
     tok = 100
     for k in ks:
         out.append(([(k, tok)], ()))
